@@ -214,6 +214,11 @@ def _one_list(mode, inc, exs, fs0, res):
             # exclusions alone match nothing ... unless NEGATEALL supplies the implicit match-everything inclusion
             refa, npa, nna = reference(mode, inline, [], fs + 'A')
             compare(mode, 'negateall', inline, None, fs + 'A', refa, res, (npa, nna))
+            # a trailing `|` adds an empty *inclusion* piece: the list is no longer all-negative, so NEGATEALL adds nothing
+            if 'E' in fs or not any('(' in p for p in inline):
+                refe, npe, nne = reference(mode, inline + [''], [], fs + 'A')
+                compare(mode, 'split-trailing-empty', '|'.join(inline) + '|', None, fs + 'AS', refe, res)
+                compare(mode, 'list-with-empty', inline + [''], None, fs + 'A', refe, res)
     # under NEGATE|MINUSNEGATE a leading '!' is not an exclusion
     if exs and inc:
         fs = fs0 + 'NM'
